@@ -16,7 +16,7 @@ from checks import c01
 
 PROPERTY = 'C02'
 LEVEL = 'exploration'
-RUNS = {'quick': 6000, 'thorough': 150000}
+RUNS = {'quick': 30000, 'thorough': 600000}
 RULE = ('scenario = physical model as C01 plus an explicit history of <= 16 operations (fetch / fetch with (offset,length) / '
         'fetch by position / scan / validate / legal failing calls) on one LogicalRecordIndex over a SimFile; non-trivial '
         'when a reach probe fires ((offset,length) crossing 1, 2, >=3 segment boundaries or a visible-record boundary, '
